@@ -317,7 +317,7 @@ def run(ctx):
             rw.site("%s::%s: info ⊢ execute#info" % key)
 
     # ---- R11 storage-write closure -------------------------------------------------------------------
-    r11 = ctx.inst("C14.R11", "every storage write is in instantiate/reply/migrate or in a guarded privileged handler; public pair/router handlers write nothing", floor=19)
+    r11 = ctx.inst("C14.R11", "every storage write is in instantiate/reply/migrate or in a guarded privileged handler; public pair/router handlers write nothing", floor=17)
     allowed_fns = set()
     for c in ("factory", "pair", "router"):
         for nm in ("instantiate", "reply", "migrate"):
